@@ -161,7 +161,9 @@ class Model:
         self.n_topologies_full = len(split_topologies(full))
         reaction = full
         if topo is not None:
-            reaction = reaction_info(split_topologies(full)[topo], full.formalism)
+            groups = split_topologies(full)
+            picks = [int(t) for t in str(topo).split("+")]  # "1+2": a subset of the topologies
+            reaction = reaction_info([t for i in picks for t in groups[i]], full.formalism)
         if align.startswith("dpd"):
             reaction = relabel_edge_ids(reaction)
         self.reaction = reaction
@@ -206,7 +208,8 @@ class Model:
     def intensity(self, kin, pars):
         byname = dict(zip(self.kin_symbols, kin))
         out = self.int_fn(*[byname[s] for s in self.used_kin], *pars)
-        return np.real(np.asarray(out, dtype=complex))
+        out = np.real(np.asarray(out, dtype=complex))
+        return np.broadcast_to(out, (len(kin[0]),)).copy() if out.ndim == 0 else out
 
     def draw_parameters(self, rng):
         pars = []
@@ -218,7 +221,7 @@ class Model:
 
 
 def family_of(model, topo, align):
-    if topo is not None or model.n_topologies == 1:
+    if model.n_topologies == 1:
         return "single" if model.complete else "single_zonly"
     if align == "none":
         if all(s == 0 for s in model.fspins):
@@ -421,6 +424,9 @@ def plan(tier):
         for n, tops in quick_single.items():
             if n in hel:
                 cases += [(n, t, "none") for t in tops]
+    # pairs of topologies in which every isobar is the "helicity state" (not the opposite-helicity one):
+    # sensitive to the top-level conventions AND invariant on the current tree
+    cases += [("jpsi_3pi_hel", "1+2", "none"), ("lc_pkpi_hel", "1+2", "axisangle")]
     # multi-topology, unaligned
     multi = ["jpsi_3pi_hel", "d0_kkk_hel"]
     if tier == "thorough":
